@@ -105,6 +105,29 @@ impl Conc {
         c
     }
 
+    /// the concretisation a TLC-generated case file declares in its meta line
+    pub fn from_meta(meta: &Value) -> Conc {
+        let tab = |v: &Value| -> BTreeMap<i32, f64> {
+            v.as_object()
+                .unwrap()
+                .iter()
+                .map(|(k, b)| {
+                    let bytes: Vec<u8> = b.as_array().unwrap().iter().map(|x| x.as_u64().unwrap() as u8).collect();
+                    let mut a = [0u8; 8];
+                    a.copy_from_slice(&bytes);
+                    (k.parse::<i32>().unwrap(), f64::from_le_bytes(a))
+                })
+                .collect()
+        };
+        let xy = tab(&meta["fxy"]);
+        let zm = tab(&meta["fzm"]);
+        let rev_xy = xy.iter().map(|(k, v)| (v.to_bits(), *k)).collect();
+        let rev_zm = zm.iter().map(|(k, v)| (v.to_bits(), *k)).collect();
+        let c = Conc { xy, zm, rev_xy, rev_zm, exactxy: meta["exactxy"].as_bool().unwrap_or(false), descr: "from case file".to_string() };
+        c.check();
+        c
+    }
+
     fn check(&self) {
         let mut prev: Option<f64> = None;
         for (_, v) in self.xy.iter() {
